@@ -14,6 +14,7 @@ NAME_POOL = ["GR", "RES", "RES", "", "res", "Res", "NPHI", "x1", "A", "A", "DT",
 UNIT_POOL = ["", "m", "ft", "gAPI", "ohm.m", "us/ft", "%", "g/cm3", "F", "0.1IN", "v/v", "DEGC", "UNIT"]
 TEXT_POOL = ["", "alpha", "Beta gamma", "well #7", "N/A", "x=1 y=2", "O'Brien \"quoted\"", "(note)", "[b]",
              "ANY OIL COMPANY INC", "12-34-12-34W5M", "15_9", "semi;colon, comma", "Rücken",
+             "12-34-12-34W5      NE/4", "LOGSOFT  REL 7", "a         b   c",       # runs of blanks inside a value
              " ".join("a remark that runs well beyond the 256 characters of a LAS 1,2 line %02d" % i for i in range(4))]
 NUM_POOL = [0, 1, -5, 42, 1500, 0.5, -999.25, 3.25, 1e-05, 123456.789, 2.0, -0.125]
 
